@@ -5,6 +5,7 @@ import (
 	"errors"
 	"fmt"
 	"runtime"
+	"strings"
 	"testing"
 	"time"
 
@@ -322,4 +323,169 @@ func TestCreateAfterClose(t *testing.T) {
 		return c
 	}
 	vh.Check(t, "TestCreateAfterClose", vh.N(40, 1200), gen, runReuse)
+}
+
+// ---- more stray packets than the connection's error queue holds (10), nobody reading errors:
+// the reader waits until the errors are taken and then goes on; the response that follows still
+// reaches its channel, and every stray packet was reported
+
+type floodCase struct {
+	Stray int `json:"stray_packets"`
+	Procs int `json:"gomaxprocs"`
+}
+
+func runFlood(c floodCase) (f *vh.Failure) {
+	defer func() {
+		if r := recover(); r != nil {
+			vh.CheckHarnessPanic(r)
+			f = vh.Failf("C12/panic", "panic: %v", r)
+		}
+	}()
+	old := runtime.GOMAXPROCS(c.Procs)
+	defer runtime.GOMAXPROCS(old)
+	e := newLifeEnv(100)
+	defer e.stop()
+	var chans []*tds.Channel
+	for i := 0; i < 2; i++ {
+		var ch *tds.Channel
+		var err error
+		if !within(5*time.Second, func() { ch, err = e.conn.NewChannel() }) || err != nil {
+			return vh.Failf("C12/newchannel", "NewChannel %d: %v", i, err)
+		}
+		chans = append(chans, ch)
+	}
+	ch := chans[1]
+	for i := 0; i < c.Stray; i++ {
+		e.pipe.Feed(rc.Packet{Type: rc.BufResponse, Channel: uint16(9 + i%3), Status: rc.StatEOM, Body: []byte{rc.TokDone, 0, 0, 0, 0, 0, 0, 0, 0}}.Bytes())
+	}
+	time.Sleep(time.Millisecond)
+	e.pipe.Feed(retPacket(ch.VerifID(), 42, true))
+	// the consumer: every call either yields the package or one of the connection's errors
+	errs := 0
+	var got tds.Package
+	deadline := time.Now().Add(5 * time.Second)
+	for got == nil && time.Now().Before(deadline) {
+		wctx, cancel := context.WithTimeout(e.bg, time.Second)
+		p, err := ch.NextPackage(wctx, true)
+		cancel()
+		switch {
+		case err == nil:
+			got = p
+		case errors.Is(err, context.DeadlineExceeded):
+		default:
+			errs++
+		}
+	}
+	if got == nil {
+		return vh.Failf("C12/delivery-stops-after-stray-packets", "%+v: after %d packets for channels nobody has, the response for channel %d was not delivered within 5 s (%d connection errors reported)", c, c.Stray, ch.VerifID(), errs)
+	}
+	if _, ok := got.(*tds.ReturnStatusPackage); !ok {
+		return vh.Failf("C12/wrong-delivery", "%+v: channel %d received %T", c, ch.VerifID(), got)
+	}
+	// the remaining errors
+	for dl := time.Now().Add(2 * time.Second); errs < c.Stray && time.Now().Before(dl); {
+		if e.conn.VerifConnErr() != nil {
+			errs++
+		} else {
+			time.Sleep(100 * time.Microsecond)
+		}
+	}
+	if errs != c.Stray {
+		return vh.Failf("C12/unknown-channel-not-reported", "%+v: %d stray packets produced %d connection errors", c, c.Stray, errs)
+	}
+	vh.Label("flood:stray-packets-then-a-response")
+	if c.Stray > 10 {
+		vh.Label("flood:more-than-the-error-queue-holds")
+		vh.NonTrivial(fmt.Sprintf("%+v", c))
+	}
+	return nil
+}
+
+func TestStrayPacketFlood(t *testing.T) {
+	gen := func(rt *rapid.T) floodCase {
+		c := floodCase{Stray: rapid.SampledFrom([]int{1, 9, 10, 11, 12, 20, 40}).Draw(rt, "stray"), Procs: rapid.SampledFrom([]int{1, 4}).Draw(rt, "procs")}
+		vh.Sample("flood", c)
+		return c
+	}
+	vh.Check(t, "TestStrayPacketFlood", vh.N(40, 1200), gen, runFlood)
+}
+
+// ---- Close of a logical channel while a packet of a send on it is still being written: the
+// peer sees the channel's packets with consecutive numbers in the order they were numbered
+
+type closeSendCase struct {
+	Len   int `json:"request_bytes"`
+	GapUs int `json:"close_starts_after_us"`
+	Procs int `json:"gomaxprocs"`
+}
+
+func runCloseDuringSend(c closeSendCase) (f *vh.Failure) {
+	defer func() {
+		if r := recover(); r != nil {
+			vh.CheckHarnessPanic(r)
+			f = vh.Failf("C12/panic", "panic: %v", r)
+		}
+	}()
+	old := runtime.GOMAXPROCS(c.Procs)
+	defer runtime.GOMAXPROCS(old)
+	e := newLifeEnv(100)
+	defer e.stop()
+	var ch *tds.Channel
+	for i := 0; i < 2; i++ {
+		var err error
+		if !within(5*time.Second, func() { ch, err = e.conn.NewChannel() }) || err != nil {
+			return vh.Failf("C12/newchannel", "NewChannel %d: %v", i, err)
+		}
+	}
+	id := ch.VerifID()
+	e.srv.mu.Lock()
+	e.srv.idToIdx[id] = 0
+	e.srv.c.Resp = [][]resp{{{Pkgs: []rc.P{{Done: &rc.Done{Tok: rc.TokDone}}}}}}
+	e.srv.mu.Unlock()
+	release := e.pipe.GateWrites()
+	sent := make(chan error, 1)
+	go func() {
+		sent <- ch.SendPackage(e.bg, &tds.LanguagePackage{Cmd: fmt.Sprintf("chan=%d;round=0;%s", id, strings.Repeat("x", c.Len))})
+	}()
+	if !e.pipe.WaitParkedWrite(1, 3*time.Second) {
+		release()
+		return vh.Failf("C12/send", "%+v: SendPackage never reached the transport", c)
+	}
+	// the first packet of the request is stuck in the transport; whatever is written from now on goes through
+	e.pipe.LetNewWritesPass()
+	closed := make(chan error, 1)
+	go func() { closed <- ch.Close() }()
+	time.Sleep(time.Duration(c.GapUs) * time.Microsecond)
+	release()
+	for _, w := range []struct {
+		name string
+		c    chan error
+	}{{"SendPackage", sent}, {"Close", closed}} {
+		select {
+		case <-w.c:
+		case <-time.After(5 * time.Second):
+			return vh.Failf("C12/hang", "%+v: %s did not return", c, w.name)
+		}
+	}
+	time.Sleep(500 * time.Microsecond)
+	e.srv.mu.Lock()
+	problems := append([]string{}, e.srv.problems...)
+	e.srv.mu.Unlock()
+	for _, pr := range problems {
+		if strings.Contains(pr, "packet number") {
+			return vh.Failf("C12/peer-sees-wrong-packets", "%+v: Close while a packet of the send was still being written: %s", c, pr)
+		}
+	}
+	vh.Label("close-during-send")
+	vh.NonTrivial(fmt.Sprintf("%+v", c))
+	return nil
+}
+
+func TestCloseDuringSend(t *testing.T) {
+	gen := func(rt *rapid.T) closeSendCase {
+		c := closeSendCase{Len: rapid.SampledFrom([]int{10, 400, 600, 1500}).Draw(rt, "len"), GapUs: rapid.SampledFrom([]int{200, 1000, 5000}).Draw(rt, "gap"), Procs: rapid.SampledFrom([]int{1, 2, 4}).Draw(rt, "procs")}
+		vh.Sample("close-during-send", c)
+		return c
+	}
+	vh.Check(t, "TestCloseDuringSend", vh.N(40, 1200), gen, runCloseDuringSend)
 }
